@@ -52,6 +52,12 @@ func runOtherWorld(t *testing.T, k *Kernel, p *Plan, rec *RunRecord, keepLog boo
 	case "cli":
 		runCliWorld(t, k, p, rec)
 		return true
+	case "gen":
+		runGenWorld(t, k, p, rec)
+		return true
+	case "cred":
+		runCredWorld(t, k, p, rec)
+		return true
 	}
 	return false
 }
